@@ -46,7 +46,11 @@ def check(ctx):
         fname = lambda e: e[1][1][2] if isinstance(e[1][1], tuple) and e[1][1][0] == "attr" else None
         pub = [i for i, e in enumerate(ec) if fname(e) == "set_outgoing_message"]
         ins = [i for i, e in enumerate(ec) if fname(e) == "insert_pending_answer"]
-        wt = [i for i, e in enumerate(ec) if fname(e) == "wait" and isinstance(e[1][1][1], tuple) and e[1][1][1][:2] == ("call", ("name", "PendingAnswer"))]
+        # the caller's wait: `.wait()` on a PendingAnswer built here, or on whatever object was inserted into the registry (a waiter
+        # that is NOT a fresh construction - taken from a pool, a cache, an attribute - is judged by R-ALIAS/waiter below)
+        ins_args = {ec[i][1][2][0] for i in ins if ec[i][1][2]}
+        wt = [i for i, e in enumerate(ec) if fname(e) == "wait" and isinstance(e[1][1][1], tuple) and
+              (e[1][1][1][:2] == ("call", ("name", "PendingAnswer")) or e[1][1][1] in ins_args)]
         if not pub:
             continue
         n += 1
@@ -68,7 +72,10 @@ def check(ctx):
         ok2 = insarg == W and awaited == W and pubarg == MSG and n_built == 1
         ctx.decide(ok2, "R-ALIAS/waiter", construct, br.where(sm), "the waiter inserted is the one awaited, built from the request",
                    f"inserted waiter `{sym.show(insarg)}`, awaited `{sym.show(awaited)}`, published `{sym.show(pubarg)}`, "
-                   f"PendingAnswer objects built on the path: {n_built}", key="same_waiter")
+                   f"PendingAnswer objects built on the path: {n_built} - the waiter must be a PendingAnswer constructed for this "
+                   f"request on this path (an object taken from a pool / cache / attribute can still be in the hands of an earlier "
+                   f"caller that has been woken but has not yet read its answer: that caller then returns this request's message)",
+                   key="same_waiter")
         rets = p.value if p.term == "return" else None
         ctx.decide(rets == ("attr", W, "msg"), "R-FLOW/waiter-result", construct, br.where(sm), "returns the waiter's message",
                    f"a waiting caller returns `{sym.show(rets)}`", key="returns_msg", nontrivial=False)
@@ -186,6 +193,32 @@ def check(ctx):
     ctx.decide(found, "R-MUSTPASS/dispatch-order", f"{br.qual}.handler_pending_answers", br.where(hp),
                "dispatch path that wakes the waiter exists", "no path of handler_pending_answers wakes a waiter", key="wakes",
                nontrivial=False)
+    # exactly when: an answer is dropped (the function completes without waking anybody) only after the registry said that no
+    # waiter is registered for it - any other reason to skip the dispatch (a duplicate filter, a history, a rate limit, a state
+    # flag) leaves a registered caller blocked forever, because nothing else ever wakes it
+    is_pend = lambda c: isinstance(c, tuple) and c and c[0] == "call" and isinstance(c[1], tuple) and c[1][0] == "attr" \
+        and c[1][2] == "is_pending_answer" and c[2] == (Mh,)
+    member_h = lambda t: isinstance(t, tuple) and t and t[0] == "cmp" and t[1] in ("In", "NotIn") and t[2] == hbh(Mh) and \
+        isinstance(t[3], tuple) and (t[3][:1] == ("attr",) and t[3][2] == "pending_answers" or
+                                     t[3][:1] == ("call",) and isinstance(t[3][1], tuple) and t[3][1][:1] == ("attr",) and
+                                     isinstance(t[3][1][1], tuple) and t[3][1][1][-1:] == ("pending_answers",))
+    n_drop = 0
+    for p in paths_hp if (paths_hp := run(hp)[1]) else []:
+        if p.term == "raise":
+            continue
+        nm = [e[1][1][2] for e in p.effects if e[0] == "ecall" and isinstance(e[1], tuple) and e[1][0] == "call"
+              and isinstance(e[1][1], tuple) and e[1][1][0] == "attr"]
+        if "remove_pending_answer" in nm or "notify" in nm:
+            continue
+        n_drop += 1
+        consulted = any((is_pend(c) and tv is False) or (member_h(c) and tv is (c[1] == "NotIn")) for c, tv in p.conds)
+        other = [f"{sym.show(c)} is {tv}" for c, tv in p.conds if not is_pend(c) and not member_h(c) and not (isinstance(c, tuple) and c[:1] == ("exc",))]
+        ctx.decide(consulted, "R-DOM/dispatch-iff-pending", f"{br.qual}.handler_pending_answers", br.where(p.node if p.node is not None else hp),
+                   "an answer is dropped only after the registry reported no waiter for it",
+                   f"a path of handler_pending_answers ends without waking a waiter and without having asked the registry whether one is "
+                   f"registered (conditions on the path: {other[:4]}): the answer of a registered request is discarded and its caller "
+                   f"blocks forever in wait()", key="drop_only_if_not_pending")
+    ctx.count("dropping_paths", n_drop)
     ps_, paths_ = run(rem)
     Pr = sym.S(ps_[0])
     ok = bool(paths_)
